@@ -620,10 +620,8 @@ class DatasetProcessor:
                 if len(self.args.read_assignments) == len(samples):
                     # one prefix per experiment, in the order of the experiments
                     saves_file = self.args.read_assignments[samples.index(sample)]
-                elif len(samples) == 1:
-                    saves_file = self.args.read_assignments[0]
                 else:
-                    logger.critical("%d experiments but %d --read_assignments prefixes: give one prefix per experiment" %
+                    logger.critical("%d experiment(s) but %d --read_assignments prefixes: give one prefix per experiment" %
                                     (len(samples), len(self.args.read_assignments)))
                     exit(-1)
             saved_file_count, saved_read_group = self.load_run_setup(saves_file)
